@@ -1,6 +1,6 @@
 (* Proofs about Model/Job.v (shared by C05 and C06). *)
 From Coq Require Import List Bool Arith Lia ZArith.
-From Artap Require Import Model.Job.
+From Artap Require Import Model.Job Model.Dominance Proofs.DominanceProofs.
 Import ListNotations.
 Local Open Scope nat_scope.
 
@@ -29,6 +29,9 @@ Section ListFacts.
 
   Lemma filter_all_true (f : A -> bool) l : Forall (fun x => f x = true) l -> filter f l = l.
   Proof. induction 1 as [|x l H _ IH]; cbn; [reflexivity|]. rewrite H, IH. reflexivity. Qed.
+
+  Lemma filter_len_le (f : A -> bool) l : length (filter f l) <= length l.
+  Proof. induction l as [|x l IH]; cbn; [lia|]. destruct (f x); cbn; lia. Qed.
 End ListFacts.
 
 Section JobFacts.
@@ -466,23 +469,22 @@ Section JobFacts.
       exists (cs1 ++ cs2). rewrite app_assoc. split; [exact R2|]. rewrite C2, C1, app_assoc. reflexivity.
   Qed.
 
-  (* a freshly created design keeps the invariant *)
-  Lemma R_alloc e st0 st cs v ids :
-    R e st0 st cs -> R e st0 (add_pop (alloc st (fresh v)) ids) cs.
+  (* freshly created designs keep the invariant *)
+  Lemma R_alloc_many e st0 st cs vs ids :
+    R e st0 st cs -> R e st0 (add_pop (set_heap st (s_heap st ++ map (@fresh T) vs)) ids) cs.
   Proof.
-    intros (C & Len & W & D). unfold R. cbn [s_calls s_heap add_pop alloc set_heap]. rewrite app_length. cbn [length].
+    intros (C & Len & W & D). unfold R. cbn [s_calls s_heap add_pop set_heap]. rewrite app_length.
     split; [exact C|]. split; [lia|]. split; [intros c Hc; specialize (W c Hc); lia|].
     intros id i H. destruct (Nat.lt_ge_cases id (length (s_heap st))) as [Lt|Ge].
     - rewrite nth_error_app1 in H by exact Lt. apply D; exact H.
-    - assert (id = length (s_heap st)).
-      { assert (id < length (s_heap st ++ [fresh v])) by (apply nth_error_Some; congruence).
-        rewrite app_length in H0. cbn in H0. lia. }
-      subst id. rewrite nth_error_app_new in H. inversion H; subst i.
-      assert (N : nth_error (s_heap st0) (length (s_heap st)) = None) by (apply nth_error_None; lia).
+    - rewrite nth_error_app2 in H by exact Ge. apply nth_error_In in H. apply in_map_iff in H.
+      destruct H as (v & <- & _).
+      assert (N : nth_error (s_heap st0) id = None) by (apply nth_error_None; lia).
       rewrite N. left. split; [|cbn; discriminate].
       apply filter_all_false. apply Forall_forall. intros c Hc. specialize (W c Hc).
-      replace (c_id c =? length (s_heap st)) with false; [reflexivity|]. symmetry. apply Nat.eqb_neq. lia.
+      replace (c_id c =? id) with false; [reflexivity|]. symmetry. apply Nat.eqb_neq. lia.
   Qed.
+
   (* ------------------------------------------------------------------ serial evaluation of a batch *)
   Lemma job_done_evaluated e st id i st' :
     nth_error (s_heap st) id = Some i -> istate i <> Evaluated -> job_evaluate e st id = (st', Done) ->
@@ -669,5 +671,499 @@ Section JobFacts.
       assert (id < length (s_heap st0)) by (apply nth_error_Some; congruence). lia. }
     exists i. split; [exact H|]. destruct HR as (_ & _ & _ & D). specialize (D id i H). rewrite H0 in D.
     exact D.
+  Qed.
+  (* ------------------------------------------------------------------ every history of operations *)
+  Inductive reach (e : env) (st0 : state) : state -> list call -> Prop :=
+  | reach_refl : reach e st0 st0 []
+  | reach_eval st cs batch st' r cs' :
+      reach e st0 st cs -> evaluate_serial e st batch = (st', r) -> s_calls st' = s_calls st ++ cs' ->
+      reach e st0 st' (cs ++ cs')
+  | reach_scalar st cs x st' ret cs' :
+      reach e st0 st cs -> evaluate_scalar e st x = (st', ret) -> s_calls st' = s_calls st ++ cs' ->
+      reach e st0 st' (cs ++ cs')
+  | reach_sweep st cs vs st' r cs' :
+      reach e st0 st cs -> sweep e st vs = (st', r) -> s_calls st' = s_calls st ++ cs' ->
+      reach e st0 st' (cs ++ cs').
+
+  Lemma R_scalar e st0 st cs x st' ret :
+    R e st0 st cs -> evaluate_scalar e st x = (st', ret) ->
+    exists cs', R e st0 st' (cs ++ cs') /\ s_calls st' = s_calls st ++ cs'.
+  Proof.
+    intros HR E. unfold Job.evaluate_scalar in E.
+    set (st1 := add_pop (alloc st (fresh x)) [length (s_heap st)]) in *.
+    assert (R1 : R e st0 st1 cs) by (apply (R_alloc_many e st0 st cs [x]); exact HR).
+    destruct (job_evaluate e st1 (length (s_heap st))) as [st2 r2] eqn:J.
+    destruct (R_job e st0 st1 cs _ st2 r2 R1 J) as (cs' & R2 & C2).
+    exists cs'. destruct r2; inversion E; subst; split; assumption.
+  Qed.
+
+  Lemma R_sweep e st0 st cs vs st' r :
+    R e st0 st cs -> sweep e st vs = (st', r) ->
+    exists cs', R e st0 st' (cs ++ cs') /\ s_calls st' = s_calls st ++ cs'.
+  Proof.
+    intros HR E. unfold Job.sweep in E.
+    destruct (R_serial e st0 _ _ cs st' r (R_alloc_many e st0 st cs vs _ HR) E) as (cs' & R2 & C2).
+    exists cs'. split; [exact R2|exact C2].
+  Qed.
+
+  Theorem reach_R e st0 st cs : reach e st0 st cs -> R e st0 st cs.
+  Proof.
+    induction 1 as [|st cs batch st' r cs' _ IH E C|st cs x st' ret cs' _ IH E C|st cs vs st' r cs' _ IH E C].
+    - apply R_refl.
+    - destruct (R_serial e st0 batch st cs st' r IH E) as (cs2 & R2 & C2).
+      rewrite C2 in C. apply app_inv_head in C. subst. exact R2.
+    - destruct (R_scalar e st0 st cs x st' ret IH E) as (cs2 & R2 & C2).
+      rewrite C2 in C. apply app_inv_head in C. subst. exact R2.
+    - destruct (R_sweep e st0 st cs vs st' r IH E) as (cs2 & R2 & C2).
+      rewrite C2 in C. apply app_inv_head in C. subst. exact R2.
+  Qed.
+
+  (* in every reachable state an evaluated design that was not evaluated to begin with holds the result
+     of its single successful objective call, made for the stored vector *)
+  Theorem reach_evaluated e st0 st cs id i :
+    reach e st0 st cs -> nth_error (s_heap st) id = Some i -> istate i = Evaluated ->
+    (forall i0, nth_error (s_heap st0) id = Some i0 -> istate i0 <> Evaluated) ->
+    evaluated_by e id cs i.
+  Proof.
+    intros HR H Ev N. apply reach_R in HR. destruct HR as (_ & _ & _ & D). specialize (D id i H).
+    destruct (nth_error (s_heap st0) id) as [i0|].
+    - specialize (N i0 eq_refl). destruct (istate i0); try congruence;
+        (destruct D as [[_ X]|X]; [congruence|exact X]).
+    - destruct D as [[_ X]|X]; [congruence|exact X].
+  Qed.
+
+  Theorem costs_belong_to_vector e st0 st cs id i :
+    reach e st0 st cs -> nth_error (s_heap st) id = Some i -> istate i = Evaluated ->
+    (forall i0, nth_error (s_heap st0) id = Some i0 -> istate i0 <> Evaluated) ->
+    exists c, In c cs /\ c_id c = id /\ c_vec c = ivec i /\ e_obj e c = Ok (icosts i) /\
+              (forall c', In c' cs -> c_id c' = id -> ok_b e c' = true -> c' = c).
+  Proof.
+    intros HR H Ev N. destruct (reach_evaluated e st0 st cs id i HR H Ev N) as (c & costs & K & O & V & Co & _).
+    exists c. assert (IN : In c (okc e id cs)) by (rewrite K; left; reflexivity).
+    unfold okc in IN. apply filter_In in IN. destruct IN as [IN B]. apply andb_true_iff in B. destruct B as [B1 B2].
+    apply Nat.eqb_eq in B1. repeat split; auto; [congruence|].
+    intros c' IN' Id' Ok'. assert (X : In c' (okc e id cs)).
+    { unfold okc. apply filter_In. split; [exact IN'|]. rewrite Ok'. apply andb_true_iff. split; [|reflexivity].
+      apply Nat.eqb_eq. exact Id'. }
+    rewrite K in X. destruct X as [X|[]]. congruence.
+  Qed.
+
+  Theorem signed_costs_spec e st0 st cs id i :
+    reach e st0 st cs -> nth_error (s_heap st) id = Some i -> istate i = Evaluated ->
+    (forall i0, nth_error (s_heap st0) id = Some i0 -> istate i0 <> Evaluated) ->
+    isigned i = Some (map2 (fun s c => smul s (round7 c)) (e_signs e) (icosts i), negb (ifeas i)) /\
+    (e_cons e (ivec i) <> [] -> ifeas i = forallb (fun g => ltb g zero) (e_cons e (ivec i))).
+  Proof.
+    intros HR H Ev N. destruct (reach_evaluated e st0 st cs id i HR H Ev N) as (c & costs & _ & _ & _ & Co & _ & Sg & Fe).
+    subst costs. split; [exact Sg|exact Fe].
+  Qed.
+
+  (* the marker, read by C01's comparator (False = 0, True = 1), puts a design that satisfies all
+     constraints ahead of one that violates some, whatever the objective values are *)
+  Theorem marker_ranks_feasible_first (cltb : T -> T -> bool) signs ca cb fa fb ga gb :
+    ga <> [] -> forallb (fun g => ltb g zero) ga = true ->
+    gb <> [] -> forallb (fun g => ltb g zero) gb = false ->
+    let sa := signed_costs signs ca (feasible_of fa ga) in
+    let sb := signed_costs signs cb (feasible_of fb gb) in
+    pareto_compare cltb (fst sa, Z.b2z (snd sa)) (fst sb, Z.b2z (snd sb)) = 1 /\
+    pareto_compare cltb (fst sb, Z.b2z (snd sb)) (fst sa, Z.b2z (snd sa)) = 2.
+  Proof.
+    intros Na Fa Nb Fb. cbn zeta. unfold Job.signed_costs. cbn [fst snd].
+    rewrite (feasible_of_nonempty fa ga Na), (feasible_of_nonempty fb gb Nb), Fa, Fb. cbn [negb Z.b2z].
+    split; rewrite pareto_marker_lex; reflexivity.
+  Qed.
+  (* ------------------------------------------------------------------ sweep *)
+  Definition vec_of (st : state) (id : nat) : list T :=
+    match nth_error (s_heap st) id with Some i => ivec i | None => [] end.
+
+  Lemma filter_ok_job e pre c costs :
+    all_transient e pre -> e_obj e c = Ok costs -> filter (ok_b e) (pre ++ [c]) = [c].
+  Proof.
+    intros Tr O. rewrite filter_app. rewrite filter_all_false.
+    - cbn. unfold ok_b. rewrite O. reflexivity.
+    - eapply Forall_impl; [|exact Tr]. cbn. intros a. apply ok_b_tr.
+  Qed.
+
+  (* a batch of distinct EMPTY designs: one successful call per design in batch order, and the first
+     attempts are made with the designs' vectors in batch order *)
+  Lemma serial_order e : forall batch st st' cs,
+    NoDup batch ->
+    (forall id, In id batch -> exists i, nth_error (s_heap st) id = Some i /\ istate i = Empty) ->
+    evaluate_serial e st batch = (st', Done) -> s_calls st' = s_calls st ++ cs ->
+    map (@c_id T) (filter (ok_b e) cs) = batch /\
+    map (@c_vec T) (filter (fun c => c_att c =? 0) cs) = map (vec_of st) batch.
+  Proof.
+    induction batch as [|h rest IH]; intros st st' cs ND All E C.
+    - cbn in E. inversion E; subst. rewrite <- (app_nil_r (s_calls st')) in C at 1. apply app_inv_head in C.
+      subst. split; reflexivity.
+    - inversion ND as [|? ? NI ND']; subst.
+      destruct (All h (or_introl eq_refl)) as (ih & Hh & Em).
+      cbn [Job.evaluate_serial] in E. rewrite Hh, Em in E.
+      destruct (job_evaluate e st h) as [st1 r1] eqn:J. destruct r1; try discriminate.
+      assert (NEv : istate ih <> Evaluated) by congruence.
+      destruct (job_spec e st h ih st1 Done Hh NEv J) as (cs1 & i' & C1 & Hh1 & _ & Ch & Post).
+      destruct (job_frame e st h st1 Done J) as (cs1' & C1' & _ & Ids & _ & _ & Oth & _ & _).
+      assert (cs1' = cs1) as -> by (rewrite C1 in C1'; apply app_inv_head in C1'; congruence).
+      destruct (serial_frame e rest st1 st' Done E) as (cs2 & C2 & _).
+      assert (cs = cs1 ++ cs2) as ->.
+      { rewrite C2, C1, <- app_assoc in C. apply app_inv_head in C. congruence. }
+      assert (All' : forall id, In id rest -> exists i, nth_error (s_heap st1) id = Some i /\ istate i = Empty).
+      { intros id IN. assert (id <> h) by (intros ->; contradiction).
+        rewrite (Oth id H). apply All. right. exact IN. }
+      destruct (IH st1 st' cs2 ND' All' E C2) as [I1 I2].
+      unfold attempts_post in Post. destruct Post as (pre & c & costs & -> & _ & Tr & O & _).
+      set (cs1 := pre ++ [c]) in *.
+      rewrite !filter_app, !map_app, I1, I2. subst cs1. split.
+      + rewrite (filter_ok_job e pre c costs Tr O). cbn [map app]. f_equal.
+        rewrite Forall_forall in Ids. apply Ids. apply in_or_app. right. left. reflexivity.
+      + assert (exists f tl, pre ++ [c] = f :: tl) as (f & tl & Eq) by (destruct pre; cbn; eauto).
+        rewrite Eq in Ch |- *. destruct (chain_att0 e h _ _ f tl Ch) as [F V]. rewrite F. cbn [map app].
+        f_equal.
+        * rewrite V. unfold vec_of. rewrite Hh. reflexivity.
+        * apply map_ext_in. intros id IN. unfold vec_of.
+          assert (id <> h) by (intros ->; contradiction). rewrite (Oth id H). reflexivity.
+  Qed.
+
+  Lemma heap_fresh_vecs : forall (vs : list (list T)) (h : list ind),
+    map (fun id => match nth_error (h ++ map (@fresh T) vs) id with Some i => ivec i | None => [] end)
+        (seq (length h) (length vs)) = vs.
+  Proof.
+    induction vs as [|v vs IH]; intros h; [reflexivity|].
+    cbn [length seq map]. f_equal.
+    - rewrite nth_error_app2 by lia. rewrite Nat.sub_diag. reflexivity.
+    - specialize (IH (h ++ [fresh v])). rewrite app_length in IH. cbn [length] in IH.
+      rewrite Nat.add_1_r in IH. rewrite <- app_assoc in IH. exact IH.
+  Qed.
+
+  Theorem sweep_order e st vs st' r :
+    sweep e st vs = (st', r) ->
+    let n := length (s_heap st) in
+    s_pop st' = s_pop st ++ seq n (length vs) /\
+    length (s_heap st') = n + length vs /\
+    (forall id, id < n -> nth_error (s_heap st') id = nth_error (s_heap st) id) /\
+    exists cs, s_calls st' = s_calls st ++ cs /\
+      Forall (fun c => n <= c_id c < n + length vs) cs /\
+      (r = Done ->
+         map (@c_id T) (filter (ok_b e) cs) = seq n (length vs) /\
+         map (@c_vec T) (filter (fun c => c_att c =? 0) cs) = vs /\
+         forall k, k < length vs -> exists i, nth_error (s_heap st') (n + k) = Some i /\ istate i = Evaluated).
+  Proof.
+    intros E n. unfold Job.sweep in E. fold n in E.
+    set (st1 := add_pop (set_heap st (s_heap st ++ map (@fresh T) vs)) (seq n (length vs))) in *.
+    destruct (serial_frame e _ st1 st' r E) as (cs & C & L & P & _ & In').
+    assert (H1 : forall id, In id (seq n (length vs)) ->
+                 exists i, nth_error (s_heap st1) id = Some i /\ istate i = Empty).
+    { intros id IN. apply in_seq in IN. cbn [st1 s_heap add_pop set_heap].
+      rewrite nth_error_app2 by (fold n; lia). fold n.
+      destruct (nth_error (map (@fresh T) vs) (id - n)) as [i|] eqn:X.
+      - exists i. split; [reflexivity|]. apply nth_error_In in X. apply in_map_iff in X.
+        destruct X as (v & <- & _). reflexivity.
+      - apply nth_error_None in X. rewrite map_length in X. lia. }
+    split; [rewrite P; reflexivity|]. split.
+    { rewrite L. cbn [st1 s_heap add_pop set_heap]. rewrite app_length, map_length. reflexivity. }
+    split.
+    { intros id Lt. rewrite (serial_untouched e _ st1 st' r id E).
+      - cbn [st1 s_heap add_pop set_heap]. apply nth_error_app1. exact Lt.
+      - intros IN. apply in_seq in IN. lia. }
+    exists cs. split; [exact C|]. split.
+    { eapply Forall_impl; [|exact In']. cbn. intros a IN. apply in_seq in IN. exact IN. }
+    intros ->. destruct (serial_order e _ st1 st' cs (seq_NoDup _ _) H1 E C) as [O1 O2].
+    split; [exact O1|]. split.
+    - rewrite O2. unfold vec_of. cbn [st1 s_heap add_pop set_heap]. apply heap_fresh_vecs.
+    - intros k Lt. assert (IN : In (n + k) (seq n (length vs))) by (apply in_seq; lia).
+      destruct (H1 _ IN) as (i & Hi & Em).
+      eapply serial_done_evaluated; eauto.
+  Qed.
+
+  (* ------------------------------------------------------------------ scalar bridge *)
+  Lemma upd_app_new {A : Type} (l : list A) x y : upd (l ++ [x]) (length l) y = l ++ [y].
+  Proof. induction l as [|a l IH]; cbn; [reflexivity|]. rewrite IH. reflexivity. Qed.
+
+  Lemma attempts_first_ok e id fuel att i st costs :
+    e_obj e (next_call st id att (ivec i)) = Ok costs ->
+    attempts e id (S fuel) att i st =
+      (evaluated_ind e (ifeas i) (ivec i) costs,
+       add_store (log_call st (next_call st id att (ivec i))) id (evaluated_ind e (ifeas i) (ivec i) costs), Done).
+  Proof. intros O. cbn [Job.attempts]. unfold Job.attempt. rewrite O. reflexivity. Qed.
+
+  (* the queried point is recorded with its true cost; the optimiser receives the signed cost *)
+  Theorem scalar_bridge e st x costs :
+    let id := length (s_heap st) in
+    let c := mkcall (length (s_calls st)) id 0 x in
+    e_obj e c = Ok costs ->
+    let i' := evaluated_ind e false x costs in
+    evaluate_scalar e st x =
+      ({| s_heap := s_heap st ++ [i']; s_pop := s_pop st ++ [id]; s_failed := s_failed st;
+          s_store := s_store st ++ [(id, i')]; s_calls := s_calls st ++ [c] |},
+       match map2 (fun s k => smul s (round7 k)) (e_signs e) costs with
+       | y :: _ => SVal y
+       | [] => SMark (negb (feasible_of false (e_cons e x)))
+       end).
+  Proof.
+    intros id c O i'. unfold Job.evaluate_scalar, Job.job_evaluate.
+    set (st1 := add_pop (alloc st (fresh x)) [length (s_heap st)]).
+    assert (H1 : nth_error (s_heap st1) (length (s_heap st)) = Some (fresh x)) by (cbn; apply nth_error_app_new).
+    rewrite H1. cbn [istate fresh].
+    assert (O1 : e_obj e (next_call st1 (length (s_heap st)) 0 (ivec (fresh x))) = Ok costs) by exact O.
+    rewrite (attempts_first_ok e _ 4 0 (fresh x) st1 costs O1).
+    cbn [s_heap add_store log_call set_heap st1 add_pop alloc ivec ifeas fresh s_pop s_failed s_store s_calls].
+    rewrite upd_app_new, nth_error_app_new. fold id. unfold evaluated_ind at 3. cbn [isigned].
+    unfold Job.signed_costs.
+    destruct (map2 (fun s k => smul s (round7 k)) (e_signs e) costs); reflexivity.
+  Qed.
+
+  Theorem scalar_bridge_general e st x st' y :
+    evaluate_scalar e st x = (st', SVal y) ->
+    let id := length (s_heap st) in
+    exists i c cs, s_calls st' = s_calls st ++ cs /\ In c cs /\ s_pop st' = s_pop st ++ [id] /\
+      nth_error (s_heap st') id = Some i /\ istate i = Evaluated /\
+      c_id c = id /\ c_vec c = ivec i /\ e_obj e c = Ok (icosts i) /\
+      exists s0 ss c0 cc, e_signs e = s0 :: ss /\ icosts i = c0 :: cc /\ y = smul s0 (round7 c0).
+  Proof.
+    intros E id. unfold Job.evaluate_scalar in E. fold id in E.
+    set (st1 := add_pop (alloc st (fresh x)) [id]) in *.
+    assert (H1 : nth_error (s_heap st1) id = Some (fresh x)) by (cbn; apply nth_error_app_new).
+    assert (NE : istate (fresh x) <> Evaluated) by (cbn; discriminate).
+    destruct (job_evaluate e st1 id) as [st2 r2] eqn:J.
+    destruct r2; try discriminate.
+    destruct (job_touched e st1 id (fresh x) st2 Done [] H1 NE J eq_refl) as (cs & i & C & Hi & Tk & Ev).
+    destruct (job_frame e st1 id st2 Done J) as (_ & _ & _ & _ & _ & P & _).
+    specialize (Ev eq_refl). cbn [app] in Tk.
+    destruct Tk as [[_ X]|(c & costs & K & O & V & Co & _ & Sg & _)]; [congruence|].
+    rewrite Hi, Sg in E. assert (st2 = st') by congruence. subst st2.
+    assert (H0 : match signed_costs (e_signs e) costs (ifeas i) with
+                 | ([], m) => SMark m | (y0 :: _, _) => SVal y0 end = SVal y) by congruence.
+    assert (IN : In c (okc e id cs)) by (rewrite K; left; reflexivity).
+    unfold okc in IN. apply filter_In in IN. destruct IN as [IN B]. apply andb_true_iff in B. destruct B as [B1 _].
+    apply Nat.eqb_eq in B1.
+    exists i, c, cs. repeat split; auto; try congruence.
+    unfold Job.signed_costs in H0. rewrite <- Co in *.
+    destruct (e_signs e) as [|s0 ss]; [cbn in H0; discriminate|].
+    destruct (icosts i) as [|c0 cc]; [cbn in H0; discriminate|].
+    cbn in H0. inversion H0. exists s0, ss, c0, cc. auto.
+  Qed.
+  (* ------------------------------------------------------------------ C06: the retry protocol *)
+  (* the k-th call of a job that starts with call number n, attempt att and vector v, as long as the
+     earlier ones failed transiently: determined by the re-roll oracle alone *)
+  Fixpoint job_call (e : env) (id n att : nat) (v : list T) (k : nat) : call :=
+    match k with
+    | 0 => mkcall n id att v
+    | S k' => job_call e id (S n) (S att) (e_reroll e (mkcall n id att v)) k'
+    end.
+
+  Lemma chain_nth e id : forall cs n att v k c,
+    chain e id n att v cs -> nth_error cs k = Some c -> c = job_call e id n att v k.
+  Proof.
+    induction cs as [|a cs IH]; intros n att v k c Ch H; [destruct k; discriminate|].
+    cbn in Ch. destruct Ch as [E Ch]. destruct k as [|k].
+    - cbn in H. inversion H; subst. reflexivity.
+    - cbn in H. destruct cs as [|c' cs']; [destruct k; discriminate|]. destruct Ch as [_ Ch].
+      cbn [job_call]. rewrite <- E. eapply IH; eauto.
+  Qed.
+
+  Lemma all_transient_nth e l k p : all_transient e l -> nth_error l k = Some p -> e_obj e p = Transient.
+  Proof. intros A H. apply nth_error_In in H. unfold all_transient in A. rewrite Forall_forall in A. auto. Qed.
+
+  Lemma failed_of_states e cs : Forall (fun f => istate f = Failed /\ icosts f = [] /\ isigned f = None) (failed_of e cs).
+  Proof. unfold failed_of. apply Forall_forall. intros f IN. apply in_map_iff in IN. destruct IN as (c & <- & _). cbn. auto. Qed.
+
+  Lemma failed_of_job e pre c : all_transient e pre -> tr_b e c = false ->
+    failed_of e (pre ++ [c]) = map (fun c => mk_failed (c_vec c)) pre.
+  Proof.
+    intros Tr F. rewrite failed_of_app, (failed_of_transient e pre Tr). unfold failed_of. cbn. rewrite F. cbn.
+    apply app_nil_r.
+  Qed.
+
+  (* everything one Job.evaluate does to a design that is not yet evaluated *)
+  Theorem job_protocol e st id i st' r :
+    nth_error (s_heap st) id = Some i -> istate i <> Evaluated -> job_evaluate e st id = (st', r) ->
+    exists cs i',
+      s_calls st' = s_calls st ++ cs /\ 1 <= length cs <= 5 /\
+      (forall k c, nth_error cs k = Some c -> c = job_call e id (length (s_calls st)) 0 (ivec i) k) /\
+      s_failed st' = s_failed st ++ failed_of e cs /\
+      nth_error (s_heap st') id = Some i' /\
+      (forall id', id' <> id -> nth_error (s_heap st') id' = nth_error (s_heap st) id') /\
+      match r with
+      | Done => exists pre c costs, cs = pre ++ [c] /\ all_transient e pre /\ e_obj e c = Ok costs /\
+                 ivec i' = c_vec c /\ icosts i' = costs /\ istate i' = Evaluated /\
+                 failed_of e cs = map (fun c => mk_failed (c_vec c)) pre /\
+                 s_store st' = s_store st ++ [(id, i')]
+      | Raised5 => length cs = 5 /\ all_transient e cs /\ istate i' = Empty /\ icosts i' = icosts i /\
+                 (exists c, nth_error cs 4 = Some c /\ ivec i' = e_reroll e c) /\
+                 failed_of e cs = map (fun c => mk_failed (c_vec c)) cs /\ s_store st' = s_store st
+      | RaisedFatal k => exists pre c, cs = pre ++ [c] /\ all_transient e pre /\ e_obj e c = Fatal k /\
+                 istate i' = InProgress /\ ivec i' = c_vec c /\ icosts i' = icosts i /\
+                 failed_of e cs = map (fun c => mk_failed (c_vec c)) pre /\ s_store st' = s_store st
+      end.
+  Proof.
+    intros H NE E. destruct (job_spec e st id i st' r H NE E) as (cs & i' & C & Hh & _ & Ch & Post).
+    destruct (job_frame e st id st' r E) as (cs0 & C0 & L5 & _ & _ & _ & Oth & F & _).
+    assert (cs0 = cs) as -> by (rewrite C in C0; apply app_inv_head in C0; congruence).
+    assert (Lt : id < length (s_heap st)) by (apply nth_error_Some; congruence).
+    exists cs, i'. split; [exact C|]. split.
+    { split; [|exact L5]. unfold attempts_post in Post. destruct r.
+      - destruct Post as (pre & c & costs & -> & _). rewrite app_length. cbn. lia.
+      - destruct Post as (L & _). lia.
+      - destruct Post as (pre & c & -> & _). rewrite app_length. cbn. lia. }
+    split; [intros k c Hk; eapply chain_nth; eauto|]. split; [exact F|].
+    split; [rewrite Hh; apply nth_error_upd_same; exact Lt|]. split; [exact Oth|].
+    unfold attempts_post in Post. destruct r as [| |k].
+    - destruct Post as (pre & c & costs & -> & _ & Tr & O & _ & I' & S').
+      exists pre, c, costs. rewrite I'. cbn. repeat split; auto.
+      + apply failed_of_job; [exact Tr|]. unfold tr_b. rewrite O. reflexivity.
+      + rewrite S', I'. reflexivity.
+    - destruct Post as (L & Tr & _ & S' & I').
+      destruct cs as [|c0 [|c1 [|c2 [|c3 [|c4 [|c5 cs]]]]]]; cbn in L; try lia.
+      cbn in I'. rewrite I'. repeat split; auto.
+      + exists c4. split; reflexivity.
+      + apply failed_of_transient. exact Tr.
+    - destruct Post as (pre & c & -> & _ & Tr & Fa & _ & S' & I').
+      exists pre, c. rewrite I'. cbn. repeat split; auto.
+      apply failed_of_job; [exact Tr|]. unfold tr_b. rewrite Fa. reflexivity.
+  Qed.
+
+  (* the result is decided by the first attempt that does not fail transiently *)
+  Theorem job_decided e st id i st' r k :
+    nth_error (s_heap st) id = Some i -> istate i <> Evaluated -> job_evaluate e st id = (st', r) ->
+    k < 5 ->
+    (forall j, j < k -> e_obj e (job_call e id (length (s_calls st)) 0 (ivec i) j) = Transient) ->
+    e_obj e (job_call e id (length (s_calls st)) 0 (ivec i) k) <> Transient ->
+    exists cs, s_calls st' = s_calls st ++ cs /\ length cs = S k /\
+      r = match e_obj e (job_call e id (length (s_calls st)) 0 (ivec i) k) with
+          | Ok _ => Done | Fatal kd => RaisedFatal kd | Transient => Raised5 end.
+  Proof.
+    intros H NE E Lk Tr NT.
+    destruct (job_protocol e st id i st' r H NE E) as (cs & i' & C & L & Nth & _ & _ & _ & Post).
+    exists cs. split; [exact C|].
+    assert (Key : forall pre c, cs = pre ++ [c] -> all_transient e pre -> e_obj e c <> Transient ->
+                  length pre = k /\ c = job_call e id (length (s_calls st)) 0 (ivec i) k).
+    { intros pre c -> TrP NTc.
+      assert (Ec : c = job_call e id (length (s_calls st)) 0 (ivec i) (length pre)) by (apply Nth; apply nth_error_app_new).
+      destruct (Nat.lt_trichotomy (length pre) k) as [Lt|[Eq|Gt]].
+      - rewrite Ec in NTc. exfalso. apply NTc. apply Tr. exact Lt.
+      - rewrite <- Eq. split; [reflexivity|exact Ec].
+      - destruct (nth_error pre k) as [p|] eqn:X; [|apply nth_error_None in X; lia].
+        assert (Ep : p = job_call e id (length (s_calls st)) 0 (ivec i) k).
+        { apply Nth. rewrite nth_error_app1 by lia. exact X. }
+        exfalso. apply NT. rewrite <- Ep. eapply all_transient_nth; eauto. }
+    destruct r as [| |kd].
+    - destruct Post as (pre & c & costs & Eq & TrP & O & _).
+      destruct (Key pre c Eq TrP) as [Lp Ec]; [congruence|]. rewrite <- Ec, O, Eq, app_length. cbn. split; [lia|reflexivity].
+    - destruct Post as (L5 & TrA & _). exfalso.
+      destruct (nth_error cs k) as [p|] eqn:X; [|apply nth_error_None in X; lia].
+      apply NT. rewrite <- (Nth k p X). eapply all_transient_nth; eauto.
+    - destruct Post as (pre & c & Eq & TrP & Fa & _).
+      destruct (Key pre c Eq TrP) as [Lp Ec]; [congruence|]. rewrite <- Ec, Fa, Eq, app_length. cbn. split; [lia|reflexivity].
+  Qed.
+
+  (* five consecutive transient failures: RuntimeError, the design is left EMPTY with the fifth replacement *)
+  Theorem five_failures_raise e st id i st' r :
+    nth_error (s_heap st) id = Some i -> istate i <> Evaluated -> job_evaluate e st id = (st', r) ->
+    (forall j, j < 5 -> e_obj e (job_call e id (length (s_calls st)) 0 (ivec i) j) = Transient) ->
+    r = Raised5.
+  Proof.
+    intros H NE E Tr.
+    destruct (job_protocol e st id i st' r H NE E) as (cs & i' & C & L & Nth & _ & _ & _ & Post).
+    destruct r as [| |kd]; [exfalso|reflexivity|exfalso].
+    - destruct Post as (pre & c & costs & -> & _ & O & _). rewrite app_length in L. cbn in L.
+      rewrite (Nth (length pre) c (nth_error_app_new pre c)) in O. rewrite Tr in O by lia. discriminate.
+    - destruct Post as (pre & c & -> & _ & Fa & _). rewrite app_length in L. cbn in L.
+      rewrite (Nth (length pre) c (nth_error_app_new pre c)) in Fa. rewrite Tr in Fa by lia. discriminate.
+  Qed.
+
+  (* a design's stored vector after re-rolls satisfies whatever every replacement satisfies *)
+  Theorem stored_vector_invariant e st id i st' (P : list T -> Prop) :
+    nth_error (s_heap st) id = Some i -> istate i <> Evaluated -> job_evaluate e st id = (st', Done) ->
+    P (ivec i) -> (forall c, P (e_reroll e c)) ->
+    exists i', nth_error (s_heap st') id = Some i' /\ P (ivec i').
+  Proof.
+    intros H NE E P0 Pr. destruct (job_spec e st id i st' Done H NE E) as (cs & i' & _ & Hh & _ & Ch & Post).
+    exists i'. split.
+    - rewrite Hh. apply nth_error_upd_same. apply nth_error_Some. congruence.
+    - destruct Post as (pre & c & costs & -> & _ & _ & _ & _ & I' & _). rewrite I'. cbn.
+      rewrite (chain_last_vec e id pre _ _ _ c Ch). destruct (rev pre); auto.
+  Qed.
+
+  (* batch level *)
+  Theorem serial_attempts_le_5 e : forall batch st st' r cs,
+    evaluate_serial e st batch = (st', r) -> s_calls st' = s_calls st ++ cs ->
+    forall id, length (calls_of id cs) <= 5.
+  Proof.
+    induction batch as [|h rest IH]; intros st st' r cs E C id; cbn [Job.evaluate_serial] in E.
+    - inversion E; subst. rewrite <- (app_nil_r (s_calls st')) in C at 1. apply app_inv_head in C. subst. cbn. lia.
+    - destruct (nth_error (s_heap st) h) as [ih|] eqn:Hh; [|eapply IH; eauto].
+      destruct (istate ih) eqn:S; try (eapply IH; eauto; fail).
+      destruct (job_evaluate e st h) as [st1 r1] eqn:J.
+      destruct (job_frame e st h st1 r1 J) as (cs1 & C1 & L1 & Ids & _).
+      assert (B1 : length (calls_of id cs1) <= 5).
+      { etransitivity; [apply filter_len_le|exact L1]. }
+      destruct r1 as [| |k].
+      + destruct (serial_frame e rest st1 st' r E) as (cs2 & C2 & _).
+        assert (cs = cs1 ++ cs2) as ->.
+        { rewrite C2, C1, <- app_assoc in C. apply app_inv_head in C. congruence. }
+        rewrite calls_of_app, app_length.
+        destruct (Nat.eq_dec id h) as [->|D].
+        * (* the design is evaluated now: the rest of the batch does not call it again *)
+          assert (NEv : istate ih <> Evaluated) by congruence.
+          destruct (job_done_evaluated e st h ih st1 Hh NEv J) as (i' & Hi' & Ev).
+          pose proof (serial_calls_empty e rest st1 st' r cs2 E C2) as F.
+          assert (calls_of h cs2 = []) as ->.
+          { apply filter_all_false. eapply Forall_impl; [|exact F]. cbn. intros a [_ (ia & Ha & Ea)].
+            apply Nat.eqb_neq. intros X. rewrite X in Ha. congruence. }
+          cbn. lia.
+        * rewrite (calls_of_other h id cs1 D Ids). cbn. eapply IH; eauto.
+      + inversion E; subst. rewrite C1 in C. apply app_inv_head in C. subst. exact B1.
+      + inversion E; subst. rewrite C1 in C. apply app_inv_head in C. subst. exact B1.
+  Qed.
+
+  (* an exception leaves the batch at once: the state is the one the raising job produced *)
+  Theorem serial_raise_stops e : forall batch st st' r,
+    evaluate_serial e st batch = (st', r) -> r <> Done ->
+    exists pre h post st1 ih, batch = pre ++ h :: post /\ evaluate_serial e st pre = (st1, Done) /\
+      nth_error (s_heap st1) h = Some ih /\ istate ih = Empty /\ job_evaluate e st1 h = (st', r).
+  Proof.
+    induction batch as [|h rest IH]; intros st st' r E NR; cbn [Job.evaluate_serial] in E.
+    - inversion E; subst. congruence.
+    - assert (Skip : evaluate_serial e st [h] = (st, Done) -> evaluate_serial e st rest = (st', r) ->
+        exists pre h0 post st1 ih, h :: rest = pre ++ h0 :: post /\ evaluate_serial e st pre = (st1, Done) /\
+          nth_error (s_heap st1) h0 = Some ih /\ istate ih = Empty /\ job_evaluate e st1 h0 = (st', r)).
+      { intros S1 E'. destruct (IH st st' r E' NR) as (pre & h0 & post & st1 & ih & -> & Ep & Hh & Em & J).
+        exists (h :: pre), h0, post, st1, ih. repeat split; auto.
+        cbn [Job.evaluate_serial] in S1 |- *.
+        destruct (nth_error (s_heap st) h) as [i0|]; [|exact Ep].
+        destruct (istate i0); try exact Ep.
+        destruct (job_evaluate e st h) as [sx rx]. destruct rx; inversion S1; subst. exact Ep. }
+      destruct (nth_error (s_heap st) h) as [ih|] eqn:Hh.
+      2:{ apply Skip; [cbn; rewrite Hh; reflexivity|exact E]. }
+      destruct (istate ih) eqn:S; try (apply Skip; [cbn; rewrite Hh, S; reflexivity|exact E]).
+      destruct (job_evaluate e st h) as [st1 r1] eqn:J.
+      destruct r1 as [| |k].
+      + destruct (IH st1 st' r E NR) as (pre & h0 & post & st2 & ih2 & -> & Ep & Hh2 & Em & J2).
+        exists (h :: pre), h0, post, st2, ih2. repeat split; auto.
+        cbn [Job.evaluate_serial]. rewrite Hh, S, J. exact Ep.
+      + inversion E; subst. exists [], h, rest, st, ih. repeat split; auto.
+      + inversion E; subst. exists [], h, rest, st, ih. repeat split; auto.
+  Qed.
+
+  (* the failed list over every history of operations *)
+  Theorem reach_failed e st0 st cs :
+    reach e st0 st cs -> s_calls st = s_calls st0 ++ cs /\ s_failed st = s_failed st0 ++ failed_of e cs.
+  Proof.
+    induction 1 as [|st cs batch st' r cs' _ [IC IF] E C|st cs x st' ret cs' _ [IC IF] E C|st cs vs st' r cs' _ [IC IF] E C].
+    - rewrite !app_nil_r. auto.
+    - destruct (serial_frame e batch st st' r E) as (cs2 & C2 & _ & _ & F2 & _).
+      assert (cs2 = cs') as -> by (rewrite C2 in C; apply app_inv_head in C; congruence).
+      rewrite C, F2, IC, IF, failed_of_app, !app_assoc. auto.
+    - unfold Job.evaluate_scalar in E.
+      destruct (job_evaluate e (add_pop (alloc st (fresh x)) [length (s_heap st)]) (length (s_heap st))) as [st2 r2] eqn:J.
+      destruct (job_frame e _ _ st2 r2 J) as (cs2 & C2 & _ & _ & _ & _ & _ & F2 & _).
+      cbn [s_calls s_failed add_pop alloc set_heap] in C2, F2.
+      assert (st2 = st') by (destruct r2; inversion E; reflexivity). subst st2.
+      assert (cs2 = cs') as -> by (rewrite C2 in C; apply app_inv_head in C; congruence).
+      rewrite C, F2, IC, IF, failed_of_app, !app_assoc. auto.
+    - unfold Job.sweep in E. destruct (serial_frame e _ _ st' r E) as (cs2 & C2 & _ & _ & F2 & _).
+      cbn [s_calls s_failed add_pop set_heap] in C2, F2.
+      assert (cs2 = cs') as -> by (rewrite C2 in C; apply app_inv_head in C; congruence).
+      rewrite C, F2, IC, IF, failed_of_app, !app_assoc. auto.
   Qed.
 End JobFacts.
